@@ -431,8 +431,10 @@ func (x *H) sectionHeader(r *hx.Rng, scale int) {
 		}
 		hs := heightsAround(c.c, r)
 		pn := hs[r.Intn(len(hs))]
+		// the clock is read once per base (a base takes milliseconds); all its candidates keep >= 1000 s from the 15 s edge
+		now := time.Now().Unix()
 		// parent: a plausible stored header; times at least 10^6 s in the past
-		pt := uint64(x.now) - 1000000 - uint64(r.Intn(1<<24))
+		pt := uint64(now) - 1000000 - uint64(r.Intn(1<<24))
 		pgl := []uint64{4712388, 5000, 5119, 5120, 5121, 6000, 1 << 20, 1<<63 - 1, 1<<63 - 1024, 1 << 40, 4712388 + uint64(r.Intn(1<<22))}[r.Intn(11)]
 		if r.Intn(25) == 0 {
 			pgl = []uint64{1 << 63, 1<<63 + 1, ^uint64(0), ^uint64(0) - 5000, 1<<63 + 1<<53}[r.Intn(5)] // impossible for a verified parent (genesis only)
@@ -454,7 +456,7 @@ func (x *H) sectionHeader(r *hx.Rng, scale int) {
 		for _, d := range []int64{-1, 0, 1, 2, 10, 239, 240, 241, 1000} {
 			times = append(times, big.NewInt(int64(pt)+d))
 		}
-		times = append(times, big.NewInt(x.now-1000), big.NewInt(x.now+15+1000), big.NewInt(x.now+1000000))
+		times = append(times, big.NewInt(now-1000), big.NewInt(now+15+1000), big.NewInt(now+1000000))
 		if uncle {
 			times = append(times, new(big.Int).Sub(two64, big.NewInt(1)), new(big.Int).Set(two64), new(big.Int).Add(two64, u(pt+1)),
 				new(big.Int).Add(two64, u(pt+500)), new(big.Int).Add(two64, u(pt-5)), new(big.Int).Sub(two256, big.NewInt(1)), new(big.Int).Set(two256),
@@ -491,27 +493,27 @@ func (x *H) sectionHeader(r *hx.Rng, scale int) {
 		validT := times[2+r.Intn(7)]
 		// single-field sweeps
 		for _, tm := range times {
-			x.hdrCase(c, x.now, uncle, seal, fail, parent, grand, mk(tm, pgl, 0, 0, pn+1, 0))
+			x.hdrCase(c, now, uncle, seal, fail, parent, grand, mk(tm, pgl, 0, 0, pn+1, 0))
 			n++
 		}
 		for _, gl := range gls {
-			x.hdrCase(c, x.now, uncle, seal, fail, parent, grand, mk(validT, gl, r.Intn(5), 0, pn+1, 0))
+			x.hdrCase(c, now, uncle, seal, fail, parent, grand, mk(validT, gl, r.Intn(5), 0, pn+1, 0))
 			n++
 		}
 		for _, e := range extras {
-			x.hdrCase(c, x.now, uncle, seal, fail, parent, grand, mk(validT, pgl, 0, e, pn+1, 0))
+			x.hdrCase(c, now, uncle, seal, fail, parent, grand, mk(validT, pgl, 0, e, pn+1, 0))
 			n++
 		}
 		for _, num := range numbers {
-			x.hdrCase(c, x.now, uncle, seal, fail, parent, grand, mk(validT, pgl, 0, 0, num, 0))
+			x.hdrCase(c, now, uncle, seal, fail, parent, grand, mk(validT, pgl, 0, 0, num, 0))
 			n++
 		}
 		for _, dd := range []int64{-1, 1, 0} {
-			x.hdrCase(c, x.now, uncle, seal, fail, parent, grand, mk(validT, pgl, 0, 0, pn+1, dd))
+			x.hdrCase(c, now, uncle, seal, fail, parent, grand, mk(validT, pgl, 0, 0, pn+1, dd))
 			n++
 		}
 		for gs := 0; gs <= 4; gs++ {
-			x.hdrCase(c, x.now, uncle, seal, fail, parent, grand, mk(validT, pgl, gs, 0, pn+1, 0))
+			x.hdrCase(c, now, uncle, seal, fail, parent, grand, mk(validT, pgl, gs, 0, pn+1, 0))
 			n++
 		}
 		// random combinations (two or more rules may fail: the FIRST one must be reported)
@@ -528,7 +530,7 @@ func (x *H) sectionHeader(r *hx.Rng, scale int) {
 			if r.Intn(2) == 0 {
 				gl = pgl + uint64(r.Intn(int(lim%1000+1))) - uint64(r.Intn(int(lim%1000+1)))
 			}
-			x.hdrCase(c, x.now, uncle, seal, fail, parent, grand,
+			x.hdrCase(c, now, uncle, seal, fail, parent, grand,
 				mk(pickT, gl, r.Intn(5), extras[r.Intn(len(extras))]*b2i(r.Intn(4) == 0), numbers[r.Intn(len(numbers))*b2i(r.Intn(5) == 0)], dd))
 			n++
 		}
@@ -642,7 +644,7 @@ func (x *H) sectionEntry(r *hx.Rng, scale int) {
 		for _, h := range stored {
 			ch.addHeader(h)
 		}
-		line := fmt.Sprintf("vh %s %d %d %d %s %s", c.spec, x.now, b2i(seal), fail, renderList(stored), render(cand, true))
+		line := fmt.Sprintf("vh %s %d %d %d %s %s", c.spec, time.Now().Unix(), b2i(seal), fail, renderList(stored), render(cand, true))
 		x.run.Current(line)
 		out := hx.Safe(func() string { return class(engine(fail).VerifyHeader(ch, cand, seal)) })
 		if strings.HasPrefix(out, "panic") {
@@ -718,6 +720,7 @@ func (x *H) sectionBatch(r *hx.Rng, scale int) {
 			}
 		}
 		start := pickStart(r, c.c)
+		now := time.Now().Unix()
 		nStored := 1 + r.Intn(4)
 		nBatch := 1 + r.Intn(40)
 		if r.Intn(4) == 0 {
@@ -739,7 +742,7 @@ func (x *H) sectionBatch(r *hx.Rng, scale int) {
 			case 2:
 				h.GasUsed = h.GasLimit + 1
 			case 3:
-				h.Time = new(big.Int).SetInt64(x.now + 5000)
+				h.Time = new(big.Int).SetInt64(now + 5000)
 			case 4:
 				h.GasLimit = h.GasLimit + h.GasLimit/512
 			case 5: // break the hash link (outside the precondition of InsertChain/ValidateHeaderChain)
@@ -789,7 +792,7 @@ func (x *H) sectionBatch(r *hx.Rng, scale int) {
 			seals[k] = r.Intn(3) > 0
 			sb[k] = byte('0' + b2i(seals[k]))
 		}
-		line := fmt.Sprintf("batch %s %d %d %d %s %s %s", c.spec, x.now, fail, b2i(contiguous), renderList(stored), renderList(batch), string(sb))
+		line := fmt.Sprintf("batch %s %d %d %d %s %s %s", c.spec, now, fail, b2i(contiguous), renderList(stored), renderList(batch), string(sb))
 		x.run.Current(line)
 		ref := ""
 		for pi, procs := range procsList {
